@@ -82,7 +82,7 @@ class C08(Prop):
                    'values are JSON-native (int/str/bool/null): type fidelity of the checkpoint encoding is C07']
     REAL_VS_STUB = {'real': ['dataflows Flow/checkpoint/stream/unstream', 'CPython TextIOWrapper/BufferedWriter buffering', 'kernel file system (tmpfs)'],
                     'stub': ['io.FileIO subclass counting/aborting raw writes', 'os.rename/unlink/makedirs wrappers', 'process death = os._exit(77) in a forked child']}
-    PROBES = ['row-function-raises-StopIteration', 'crash-between-close-and-rename', 'crash-inside-last-resource', 'torn-write-landed', 'final-file-present-after-fault',
+    PROBES = ['small-inference-sample', 'row-function-raises-StopIteration', 'crash-between-close-and-rename', 'crash-inside-last-resource', 'torn-write-landed', 'final-file-present-after-fault',
               'two-checkpoints-first-complete-second-not', 'fault-not-reached', 'io-error-at-rename', 'io-error-at-close',
               'recovery-from-complete-checkpoint', 'recovery-from-scratch', 'empty-resource', 'sweep-complete', 'healthy-run-before-failed-run-was-finalised']
     TIERS = {'quick': dict(runs=700, wall=100, run_wall=300),
@@ -106,6 +106,8 @@ class C08(Prop):
                  # a plain row function upstream of a checkpoint (it may fail with StopIteration)
                  'rmid-one': ['rmid', 'cp:a'], 'two-rmid': ['cp:a', 'rmid', 'cp:b']}[shape]
         spec = {'tables': tabs, 'links': links}
+        if rng.random() < 0.4:
+            spec['sample_size'] = rng.choice([1, 2, 5])
         sc = {'spec': spec, 'bufsize': rng.choice([None, None, 16, 64, 256])}
         sweep_p = 0.02 if tier == 'quick' else 0.25
         if rng.random() < sweep_p:
@@ -160,6 +162,8 @@ class C08(Prop):
 
     # ------------------------------------------------------------------ execute
     def execute(self, sc, ctx):
+        if (sc.get('spec') or {}).get('sample_size'):
+            ctx.probe('small-inference-sample')
         spec = sc['spec']
         bufsize = sc.get('bufsize')
         if not spec['tables'] or not cpcommon.cp_names(spec):
